@@ -30,6 +30,10 @@ Lemma is_series_lim_eq (a : nat -> R) (l l' : R) :
   l = l' -> @is_series R_AbsRing R_NormedModule a l -> @is_series R_AbsRing R_NormedModule a l'.
 Proof. intros ->; auto. Qed.
 
+Lemma is_series_ext_R (a b : nat -> R) (l : R) :
+  (forall n, a n = b n) -> @is_series R_AbsRing R_NormedModule a l -> @is_series R_AbsRing R_NormedModule b l.
+Proof. intros H. apply is_series_ext. exact H. Qed.
+
 Lemma pois_mean_shift x : is_series (fun k : nat => pois x (S k) * INR (S k)) x.
 Proof.
   pose proof (@is_series_scal_l R_AbsRing R_NormedModule (x * exp (- x)) (fun k : nat => x ^ k / INR (fact k)) (exp x) (exp_series x)) as H.
